@@ -127,15 +127,21 @@ def check(ctx):
         ctx.ob("C02.B1", f"{cname}/eq-hash", ok, loc(eq) if eq else "", "equality (exact type) and hash include every field" if ok else
                "edge key equality/hash omit a field: parallel argument edges collapse in the multigraph")
     # ---------------------------------------------------------------- B2
-    gather = m.method("Plan", "_gather", "GATHER")
+    planc_ = m.one_class("Plan", "GATHER")
+    gather = planc_.methods.get("_gather")
+    public_gather = gather is None
+    if public_gather:
+        # however the implementation is organised, the public method (with the frame capture stubbed) is the specification
+        gather = m.method("Plan", "gather", "GATHER")
     w = make_world(m, rr)
+    w.interp.stubs["get_stack_frame"] = Stub("get_stack_frame", lambda *a_: "FRAME")
     a, b = w.call("a"), w.call("b")
     lit_c = w.C["Literal"]
     call_c = w.C["Call"]
 
     def g_(v):
         try:
-            return w.interp.call_func(gather, None, ["FRAME", v], {}, bound_self=w.plan)
+            return w.interp.call_func(gather, None, [v] if public_gather else ["FRAME", v], {}, bound_self=w.plan)
         except AbsRaise as e:
             raise AnalysisError(f"C02.B2: abstract evaluation raised {e.value!r}")
 
@@ -273,12 +279,36 @@ def check(ctx):
     ctx.ob("C02.B5", f"{rp.short}/forwards-output-node", ok, loc(rp), "the output node reaches the preparation step")
     # ---------------------------------------------------------------- B6
     unp = m.method("Plan", "unpack", "UNPACK")
-    gens = [n_ for n_ in unp.own_nodes() if isinstance(n_, ast.GeneratorExp)]
-    ok = len(gens) == 1 and norm(gens[0].generators[0].iter) == "range(length)" and "operator.getitem" in norm(gens[0].elt) and norm(gens[0].elt.args[-1]) == norm(gens[0].generators[0].target)
+    # evaluated: plan.unpack(x, 3) creates t = unpack(x, 3) and returns (getitem(t, 0), getitem(t, 1), getitem(t, 2)), in order
+    wu = make_world(m, rr)
+    wu.interp.stubs["get_stack_frame"] = Stub("get_stack_frame", lambda *a_: "FRAME")
+    wu.interp.ext["inspect.signature"] = lambda fn_: Obj(None, {"bind": Stub("bind", lambda *a_, **k_: None)}, name="signature")
+    for nm_ in ("assert_is_instance", "assert_is_callable", "assert_can_bind"):
+        wu.interp.stubs[nm_] = Stub(nm_, lambda *a_, **k_: None)
+    xu = wu.call("x")
+    try:
+        res = wu.interp.call_func(unp, None, [xu, 3], {}, bound_self=wu.plan)
+    except AbsRaise as e:
+        raise AnalysisError(f"C02.B6: abstract evaluation of Plan.unpack raised {e.value!r}")
+
+    def pos_args(node):
+        es = sorted([(k.attrs["index"], u) for (u, v, k) in wu.g._edges if v is node and k.cls is wu.C["PositionalArg"]], key=lambda t_: t_[0])
+        return [u for _i, u in es]
+
+    def lit_of(node):
+        return node.attrs.get("value") if isinstance(node, Obj) and node.cls is wu.C["Literal"] else "<not a literal>"
+
+    def fname(node):
+        f_ = node.attrs.get("fn") if isinstance(node, Obj) else None
+        return f_.func.name if isinstance(f_, Closure) else getattr(f_, "name", None)
+    items = list(res) if isinstance(res, (tuple, list)) else []
+    srcs = {id(pos_args(it_)[0]) if pos_args(it_) else None for it_ in items}
+    ok = len(items) == 3 and len(srcs) == 1 and all("getitem" in str(fname(it_)) for it_ in items) and \
+        [lit_of(pos_args(it_)[1]) if len(pos_args(it_)) == 2 else None for it_ in items] == [0, 1, 2]
     ctx.ob("C02.B6", f"{unp.short}/one-getitem-per-index", ok, loc(unp), "one getitem(t, index) call per index in range(length)" if ok else
            "unpack does not create one getitem call per index in range(length)")
-    first = [c for c in unp.own_calls() if isinstance(c.func, ast.Attribute) and c.func.attr == "_call" and "unpack" in norm(c)]
-    ok = len(first) == 1 and [norm(a_) for a_ in first[0].args[2:]] == ["iterable", "length"]
+    t_node = pos_args(items[0])[0] if items and pos_args(items[0]) else None
+    ok = t_node is not None and fname(t_node) == "unpack" and len(pos_args(t_node)) == 2 and pos_args(t_node)[0] is xu and lit_of(pos_args(t_node)[1]) == 3
     ctx.ob("C02.B6", f"{unp.short}/builtin-unpack", ok, loc(unp), "items come from the builtin unpack(iterable, length)")
     bu = [f for f in m.find_funcs("unpack") if f.module.name.endswith("_builtins")]
     if len(bu) != 1:
